@@ -280,7 +280,7 @@ def _validate_chunk(traces, atmtype, timeout):
     try:
         p = os.path.join(work, "traces.json")
         with open(p, "w") as fh:
-            json.dump(traces, fh)
+            json.dump([[{"act": e["act"], "state": e["state"]} for e in t] for t in traces], fh)      # (what the trace spec reads)
         r = tlc.run_tlc("MulgridADTTrace", None, cfg_text=TRACE_CFG % atmtype, workers=1, timeout=timeout,
                         env={"TRACE_FILE": p}, allow_violation=False, heap="6g")
     finally:
@@ -579,25 +579,37 @@ def op_alphabet(geo, rng, rich):
     ops.append({"op": "check", "args": []})
     ops.append({"op": "add_delete_node", "args": [rng.choice([-40, 400]), rng.choice([-40, 400])]})
     ops.append({"op": "add_delete_well", "args": [rng.randint(1, 99)]})
-    ops.append({"op": "snap_columns_to_nearest_layers", "args": [[]]})
-    if names:
-        ops.append({"op": "snap_columns_to_nearest_layers", "args": [rng.sample(names, rng.randint(1, len(names)))]})
-    ops.append({"op": "fit_surface", "args": [rng.choice([4, 8]), rng.choice([0, 1])]})
+    if all(c.surface > geo.layerlist[-1].centre for c in geo.columnlist):           # (no column snapped to the model's bottom)
+        ops.append({"op": "snap_columns_to_nearest_layers", "args": [[]]})
+        if names:
+            ops.append({"op": "snap_columns_to_nearest_layers", "args": [rng.sample(names, rng.randint(1, len(names)))]})
+    # (snapping and fitting stay inside the domain of the edit operations: afterwards every column still has part of the
+    # bottom layer - a column snapped to the model's bottom has no layers, and nothing in the library expects that)
+    room = min(c.surface - geo.layerlist[-1].bottom for c in geo.columnlist) / H
+    fs = [d for d in (4, 8) if (geo.layerlist[0].bottom - geo.layerlist[-1].bottom) / H - d >= 2]
+    if fs:
+        ops.append({"op": "fit_surface", "args": [rng.choice(fs), rng.choice([0, 1])]})
     free_lb = [n for n in (" 6", " 5") if n not in geo.layer]
     if free_lb and len(geo.layerlist) < 10:
         ops.append({"op": "add_layer_below", "args": [free_lb[0], rng.choice([2, 4])]})
     if len(geo.layerlist) > 3 and all(c.surface > geo.layerlist[-2].bottom for c in geo.columnlist):
         ops.append({"op": "delete_bottom_layer", "args": []})
-    ops.append({"op": "snap_columns_to_layers", "args": [2]})
+    if room >= 2:
+        ops.append({"op": "snap_columns_to_layers", "args": [2]})
     if len(names) > 1:
         sub = rng.sample(names, rng.randint(1, len(names) - 1))
-        ops.append({"op": "snap_columns_to_layers", "args": [2, sub]})                       # a subset, in any order
+        if room >= 2:
+            ops.append({"op": "snap_columns_to_layers", "args": [2, sub]})                       # a subset, in any order
         ops.append({"op": "add_column_taken_name", "args": [names[0], names[-1]]})          # refused: the name is taken
     nl = len(geo.layerlist) - 1
     if 1 <= nl <= 6:
         # another layer structure: the same number of layers with other thicknesses, or another number
-        ops.append({"op": "copy_layers_from", "args": [[rng.choice([2, 4, 6, 8]) for _ in range(nl)], rng.choice([0, 2])]})
-        if rich:
+        # (the copied structure reaches below every column's surface: a column has at least part of the bottom layer)
+        lowest = min(c.surface for c in geo.columnlist) / H
+        th, up = [rng.choice([2, 4, 6, 8]) for _ in range(nl)], rng.choice([0, 2])
+        if up - sum(th) <= lowest - 1:
+            ops.append({"op": "copy_layers_from", "args": [th, up]})
+        if rich and -4 * (nl + 1) <= lowest - 1:
             ops.append({"op": "copy_layers_from", "args": [[4] * (nl + 1), 0]})
     ops.append({"op": "delete_orphans", "args": []})
     return ops
@@ -622,11 +634,14 @@ def totals(geo):
     for lay in geo.layerlist[1:]:
         for c in geo.columnlist:
             if c.surface > lay.bottom:
-                lv += geo.block_volume(lay, c)          # the library's own block volumes (what fromgeo uses)
+                bv = geo.block_volume(lay, c)          # the library's own block volumes (what fromgeo uses)
+                lv += bv if bv is not None else float("nan")
     wells_ok = sorted(geo.well) == sorted(w.name for w in geo.welllist) and all(geo.well[w.name] is w for w in geo.welllist) \
         and len(set(w.name for w in geo.welllist)) == len(geo.welllist)
+    layers_ok = sorted(geo.layer) == sorted(l.name for l in geo.layerlist) and all(geo.layer[l.name] is l for l in geo.layerlist) \
+        and len(set(l.name for l in geo.layerlist)) == len(geo.layerlist)
     return {"area": ga, "cached_area": ca, "volume": gv, "cached_volume": cv, "library_volume": lv, "worst_cached_area_error": worst,
-            "wells_ok": wells_ok}
+            "wells_ok": wells_ok, "layers_ok": layers_ok}
 
 
 def record(ad, ops_seq):
